@@ -273,13 +273,14 @@ density_sketch<T, K, A> density_sketch<T, K, A>::deserialize(std::istream& is, c
   const auto k = read<uint16_t>(is);
   read<uint16_t>(is); // unused
   const auto dim = read<uint32_t>(is);
+  if (!is.good()) throw std::runtime_error("error reading from std::istream");
 
   check_k(k); // do we have constraints?
   check_serial_version(serial_version); // a little redundant with the header check
   check_family_id(family_id);
   check_header_validity(preamble_ints, flags_byte, serial_version);
+  check_dim(dim);
 
-  if (!is.good()) throw std::runtime_error("error reading from std::istream");
   const bool is_empty = (flags_byte & (1 << flags::IS_EMPTY)) > 0;
   if (is_empty) {
     return density_sketch(k, dim, kernel, allocator);
@@ -287,22 +288,34 @@ density_sketch<T, K, A> density_sketch<T, K, A>::deserialize(std::istream& is, c
 
   const auto num_retained = read<uint32_t>(is);
   const auto n = read<uint64_t>(is);
+  if (!is.good()) throw std::runtime_error("error reading from std::istream");
+  check_num_retained(num_retained, n);
 
   // levels arrays
-  size_t pt_size = sizeof(T) * dim;
   Levels levels(allocator);
   int64_t num_to_read = num_retained; // num_retrained is uint32_t so this allows error checking
   while (num_to_read > 0) {
     const auto level_size = read<uint32_t>(is);
+    if (!is.good()) throw std::runtime_error("error reading from std::istream");
+    if (level_size > num_to_read)
+      throw std::runtime_error("Error deserializing sketch: level size exceeds the number of retained items");
+    // the level grows as points arrive: neither its size nor the loop may trust a count the stream does not back
     Level lvl(allocator);
-    lvl.reserve(level_size);
     for (uint32_t i = 0; i < level_size; ++i) {
-      Vector pt(dim, 0, allocator);
-      read(is, pt.data(), pt_size);
-      lvl.push_back(pt);
+      // likewise the point grows in bounded pieces: dim is a 32-bit value taken from the stream
+      Vector pt(allocator);
+      const size_t chunk = 4096;
+      while (pt.size() < dim) {
+        const size_t have = pt.size();
+        const size_t want = std::min<size_t>(chunk, dim - have);
+        pt.resize(have + want);
+        read(is, pt.data() + have, want * sizeof(T));
+        if (!is.good()) throw std::runtime_error("error reading from std::istream");
+      }
+      lvl.push_back(std::move(pt));
     }
-    levels.push_back(lvl);
-    num_to_read -= lvl.size();
+    levels.push_back(std::move(lvl));
+    num_to_read -= level_size;
   }
 
   if (num_to_read != 0)
@@ -336,6 +349,7 @@ density_sketch<T, K, A> density_sketch<T, K, A>::deserialize(const void* bytes, 
   check_serial_version(serial_version); // a little redundant with the header check
   check_family_id(family_id);
   check_header_validity(preamble_ints, flags_byte, serial_version);
+  check_dim(dim);
 
   const bool is_empty = (flags_byte & (1 << flags::IS_EMPTY)) > 0;
   if (is_empty) {
@@ -347,6 +361,7 @@ density_sketch<T, K, A> density_sketch<T, K, A>::deserialize(const void* bytes, 
   ptr += copy_from_mem(ptr, num_retained);
   uint64_t n;
   ptr += copy_from_mem(ptr, n);
+  check_num_retained(num_retained, n);
 
   // Predicting the number of levels seems hard so determining the exact remaining
   // size is also hard. But we need at least num_retained * dim * sizeof(T)
@@ -359,7 +374,10 @@ density_sketch<T, K, A> density_sketch<T, K, A>::deserialize(const void* bytes, 
   int64_t num_to_read = num_retained; // num_retained is uint32_t so this allows error checking
   while (num_to_read > 0) {
     uint32_t level_size;
+    ensure_minimum_memory(end_ptr - ptr, sizeof(level_size));
     ptr += copy_from_mem(ptr, level_size);
+    if (level_size > num_to_read)
+      throw std::runtime_error("Error deserializing sketch: level size exceeds the number of retained items");
     ensure_minimum_memory(end_ptr - ptr, level_size * pt_size);
     Level lvl(allocator);
     lvl.reserve(level_size);
@@ -383,6 +401,21 @@ template<typename T, typename K, typename A>
 void density_sketch<T, K, A>::check_k(uint16_t k) {
   if (k < 2)
     throw std::invalid_argument("k must be > 1. Found: " + std::to_string(k));
+}
+
+template<typename T, typename K, typename A>
+void density_sketch<T, K, A>::check_dim(uint32_t dim) {
+  if (dim == 0)
+    throw std::invalid_argument("Possible corruption. Number of dimensions must be positive");
+}
+
+// a sketch that is not flagged empty retains at least one point of a non-empty stream;
+// with no retained points there would be no level for update() to work on
+template<typename T, typename K, typename A>
+void density_sketch<T, K, A>::check_num_retained(uint32_t num_retained, uint64_t n) {
+  if (num_retained == 0 || n < num_retained)
+    throw std::invalid_argument("Possible corruption. Non-empty sketch with num_retained = "
+      + std::to_string(num_retained) + ", n = " + std::to_string(n));
 }
 
 template<typename T, typename K, typename A>
